@@ -245,9 +245,8 @@ Proof.
   assert (Hrrh : rho * rho * h = h - rho * h) by (rewrite Hr2; ring).
   destruct (Rlt_dec syc syd) as [E|E];
     constructor; cbn [ga gb gc gd gyc gyd gh]; change (T ROps) with R; try reflexivity; try lra.
-  - rewrite Ic. ring.
-  - rewrite Id, Ic. replace (rho * rho * (rho * h)) with (rho * (rho * rho * h)) by ring. rewrite Hrrh.
-    replace (rho * (h - rho * h)) with (rho * h - rho * rho * h) by ring. rewrite Hrrh. ring.
+  rewrite Id, Ic. replace (rho * rho * (rho * h)) with (rho * (rho * rho * h)) by ring. rewrite Hrrh.
+  replace (rho * (h - rho * h)) with (rho * h - rho * rho * h) by ring. rewrite Hrrh. ring.
 Qed.
 
 Lemma giter_box : forall k s, gbox s -> gbox (giter ROps f k s).
@@ -276,5 +275,5 @@ Proof.
   - change (odiv ROps (oadd ROps a b) (c2 ROps)) with ((a + b) / 2). lra.
   - assert (Hgt : tol < b - a).
     { destruct (Rle_or_lt (b - a) tol) as [L|G]; [|exact G]. apply leb_R in L. congruence. }
-    apply gmid_box; [lra|]. apply giter_box; [lra|]. apply ginit_box. lra.
+    apply gmid_box. apply giter_box. apply ginit_box. lra.
 Qed.
